@@ -61,54 +61,61 @@ and every payload. -/
 theorem mask_involutive (key d : Bytes) : maskBytes key (maskBytes key d) = d :=
   maskBytes_involutive key d
 
-/-- The writer's output for a list of uncompressed sends is the concatenation of their frames. -/
+/-- The writer's output for a list of uncompressed sends is the concatenation of the frames of
+the sends it accepts (`accepted`): after a CLOSE frame has latched `_closing`, data frames are
+refused with a reset error and write nothing, control frames still go out. -/
 theorem sendAll_plain_out (cfg : WCfg) (hcfg : cfg.compress = 0) : ∀ (sends : List Send) (w : W D),
-    w.ws.closing = false → w.ws.transportClosing = false →
+    w.ws.transportClosing = false →
     (∀ s ∈ sends, s.compress = 0 ∧ s.payload.length < 2 ^ 63 ∧
       (s.opcode = 1 ∨ s.opcode = 2 ∨ s.opcode = 8 ∨ s.opcode = 9 ∨ s.opcode = 10)) →
-    (sendAll cfg w sends).ws.out = w.ws.out ++ plainWire cfg.useMask sends := by
+    (sendAll cfg w sends).ws.out = w.ws.out ++ plainWire cfg.useMask (accepted w.ws.closing sends) := by
   intro sends
   induction sends with
-  | nil => intro w _ _ _; simp [sendAll, plainWire]
+  | nil => intro w _ _; simp [sendAll, plainWire, accepted]
   | cons s ss ih =>
-    intro w hc ht hall
+    intro w ht hall
     obtain ⟨hs0, hsn, hop⟩ := hall s (by simp)
-    have hfb : ¬ ((0x80 ||| 0 ||| s.opcode) > 255 ∨ s.payload.length ≥ 2 ^ 64) := by
-      have := (fb_facts s.opcode (by rcases hop with h | h | h | h | h <;> simp [h]) 0 (by simp)).1
-      have h64 : (2:Nat)^63 < 2^64 := by decide
-      omega
-    have hroute : route cfg s.opcode s.compress s.payload.length = .plain := by
-      unfold route; simp [hs0, hcfg]
-    have hstep : (sendFrame cfg w s.payload s.opcode s.compress s.maskKey).1.ws.out
-          = w.ws.out ++ plainFrame cfg.useMask s ∧
-        (sendFrame cfg w s.payload s.opcode s.compress s.maskKey).1.ws.closing = false ∧
-        (sendFrame cfg w s.payload s.opcode s.compress s.maskKey).1.ws.transportClosing = false := by
-      unfold sendFrame
-      simp only [hc, Bool.false_eq_true, false_and, if_false, hroute]
-      unfold sendFrameZ
-      simp only [hc, Bool.false_eq_true, false_and, if_false, hroute]
-      unfold writeFrame
-      simp only [hfb, if_false, ht, Bool.false_eq_true]
-      cases hm : cfg.useMask <;>
-        simp [afterSend, plainFrame, wirePayload, hm, hc, ht] <;> (split <;> simp [hc, ht])
-    simp only [sendAll, plainWire]
-    rw [ih _ hstep.2.1 hstep.2.2 (fun x hx => hall x (by simp [hx])), hstep.1]
-    simp
+    have hrest : ∀ x ∈ ss, x.compress = 0 ∧ x.payload.length < 2 ^ 63 ∧
+        (x.opcode = 1 ∨ x.opcode = 2 ∨ x.opcode = 8 ∨ x.opcode = 9 ∨ x.opcode = 10) :=
+      fun x hx => hall x (by simp [hx])
+    by_cases hno : w.ws.closing = true ∧ s.opcode &&& 8 = 0
+    · -- refused: ClientConnectionResetError, nothing written, state unchanged
+      have hsf : (sendFrame cfg w s.payload s.opcode s.compress s.maskKey).1 = w := by
+        unfold sendFrame; rw [if_pos hno]
+      simp only [sendAll, hsf, accepted, if_pos hno]
+      exact ih w ht hrest
+    · have hfb : ¬ ((0x80 ||| 0 ||| s.opcode) > 255 ∨ s.payload.length ≥ 2 ^ 64) := by
+        have := (fb_facts s.opcode (by rcases hop with h | h | h | h | h <;> simp [h]) 0 (by simp)).1
+        have h64 : (2:Nat)^63 < 2^64 := by decide
+        omega
+      have hroute : route cfg s.opcode s.compress s.payload.length = .plain := by
+        unfold route; simp [hs0, hcfg]
+      have hplan : framePlan cfg s.payload s.opcode s.compress [] = (s.payload, 0) := by
+        unfold framePlan; rw [hroute]
+      obtain ⟨h1, h2, h3⟩ := sendFrameZ_accepted cfg w.ws s 0 s.payload [] hno ht hfb hplan
+      have hsf : (sendFrame cfg w s.payload s.opcode s.compress s.maskKey).1.ws =
+          (sendFrameZ cfg w.ws s.payload s.opcode s.compress s.maskKey []).1 := by
+        unfold sendFrame; rw [if_neg hno]; simp only [hroute]
+      simp only [sendAll, accepted, if_neg hno, plainWire]
+      rw [ih _ (by rw [hsf]; exact h2) hrest, hsf, h1, h3]
+      simp [plainFrame]
 
 /-- **Codec round trip, uncompressed connection.**  For every list of sends (text, binary, ping,
 pong, close; payload empty to 2^63; masked with any 4-byte keys or unmasked) that the writer
 emits on a connection without permessage-deflate, and for **every** segmentation of the
-emitted bytes, the reader delivers exactly these messages, in order, with identical payloads,
+emitted bytes, the reader delivers exactly the messages of the sends the writer accepted
+(`accepted`: all of them, except data frames attempted after a CLOSE has latched `_closing`,
+which are refused with a reset error and write nothing), in order, with identical payloads,
 raises no error and keeps no byte.  (Data messages must be shorter than `max_msg_size` if one is
 set; text must be valid UTF-8 when `decode_text`; control payloads ≤ 125 bytes; close payloads
 well-formed.) -/
 theorem codec_roundtrip_plain (cfg : WCfg) (c : Cfg) (hcfg : cfg.compress = 0) (sends : List Send)
     (hall : ∀ s ∈ sends, OkPlain c s ∧ s.compress = 0 ∧ (cfg.useMask = true → s.maskKey.length = 4))
     (segs : List Bytes) (hsegs : segs.flatten = (sendAll (D := D) cfg {} sends).ws.out) :
-    (feedAll c ({} : Reader Z) segs).p.k.msgs = sends.map toMsg ∧
+    (feedAll c ({} : Reader Z) segs).p.k.msgs = (accepted false sends).map toMsg ∧
     (feedAll c ({} : Reader Z) segs).exc = none ∧
     retained (feedAll c ({} : Reader Z) segs) = 0 := by
-  have hout := sendAll_plain_out (D := D) cfg hcfg sends {} rfl rfl (by
+  have hout := sendAll_plain_out (D := D) cfg hcfg sends {} rfl (by
     intro s hs
     obtain ⟨hok, h0, _⟩ := hall s hs
     refine ⟨h0, hok.1, ?_⟩
@@ -118,11 +125,13 @@ theorem codec_roundtrip_plain (cfg : WCfg) (c : Cfg) (hcfg : cfg.compress = 0) (
   have hcore := segmentation_independent_init (Z := Z) c segs
   rw [hsegs, hout] at hcore
   simp only [List.nil_append] at hcore
-  have hfeed : (feed c ({} : Reader Z) (plainWire cfg.useMask sends)).core =
-      loopK c (fuelFor (plainWire cfg.useMask sends)) {} (plainWire cfg.useMask sends) := by
+  have hfeed : (feed c ({} : Reader Z) (plainWire cfg.useMask (accepted false sends))).core =
+      loopK c (fuelFor (plainWire cfg.useMask (accepted false sends))) {}
+        (plainWire cfg.useMask (accepted false sends)) := by
     rw [feed_core]; rfl
-  obtain ⟨k', hidle, hm, _, he⟩ := loopK_plain_all (Z := Z) c cfg.useMask sends {} _
-    ⟨rfl, rfl, rfl, rfl, Or.inr rfl⟩ (fun s hs => ⟨(hall s hs).1, (hall s hs).2.2⟩) (need_le_fuelFor _ _)
+  obtain ⟨k', hidle, hm, _, he⟩ := loopK_plain_all (Z := Z) c cfg.useMask (accepted false sends) {} _
+    ⟨rfl, rfl, rfl, rfl, Or.inr rfl⟩
+    (fun s hs => ⟨(hall s (accepted_subset hs)).1, (hall s (accepted_subset hs)).2.2⟩) (need_le_fuelFor _ _)
   rw [hfeed, he] at hcore
   have h1 : (feedAll c ({} : Reader Z) segs).p.k = k' := congrArg RK.k hcore
   have h2 : (feedAll c ({} : Reader Z) segs).tail = [] := congrArg RK.tail hcore
@@ -130,6 +139,17 @@ theorem codec_roundtrip_plain (cfg : WCfg) (c : Cfg) (hcfg : cfg.compress = 0) (
   refine ⟨by rw [h1, hm]; rfl, h3, ?_⟩
   unfold retained
   rw [h2, h1, hidle.2.1, hidle.2.2.1]; rfl
+
+/-- Corollary in the original form: a list of sends with no CLOSE before its last element is
+delivered whole (`accepted` drops nothing). -/
+theorem codec_roundtrip_plain_all (cfg : WCfg) (c : Cfg) (hcfg : cfg.compress = 0) (sends : List Send)
+    (last : Send)
+    (hall : ∀ s ∈ sends ++ [last], OkPlain c s ∧ s.compress = 0 ∧ (cfg.useMask = true → s.maskKey.length = 4))
+    (hnc : ∀ s ∈ sends, s.opcode ≠ 8)
+    (segs : List Bytes) (hsegs : segs.flatten = (sendAll (D := D) cfg {} (sends ++ [last])).ws.out) :
+    (feedAll c ({} : Reader Z) segs).p.k.msgs = (sends ++ [last]).map toMsg := by
+  have h := (codec_roundtrip_plain (Z := Z) (D := D) cfg c hcfg (sends ++ [last]) hall segs hsegs).1
+  rw [h, accepted_append_last sends last hnc]
 
 example : (feedAll (Z := toyInflater) ⟨0, false, true, 100⟩ {}
       [(sendAll (D := ⟨Unit, fun _ => (), fun _ m _ => ((), m)⟩) ⟨true, 0, false, 100⟩ {}
@@ -153,20 +173,22 @@ message, so `Sync` is lost: the next shared-context message is delivered corrupt
 harness.  Full statement = this one without the `s.compress = 0` conjunct of `OkComp`. -/
 theorem codec_roundtrip_deflate_partial (C : Codec) (cfg : WCfg) (c : Cfg) (hcfg : cfg.compress ≠ 0)
     (hc : c.compress = true) (sends : List Send)
-    (hall : OkComp C c cfg (C.D.init cfg.compress) sends)
+    (hops : ∀ s ∈ sends, s.compress = 0 ∧
+      (s.opcode = 1 ∨ s.opcode = 2 ∨ s.opcode = 8 ∨ s.opcode = 9 ∨ s.opcode = 10))
+    (hall : OkComp C c cfg (C.D.init cfg.compress) (accepted false sends))
     (segs : List Bytes) (hsegs : segs.flatten = (sendAll (D := C.D) cfg {} sends).ws.out) :
-    (feedAll c ({} : Reader C.Z) segs).p.k.msgs = sends.map toMsg ∧
+    (feedAll c ({} : Reader C.Z) segs).p.k.msgs = (accepted false sends).map toMsg ∧
     (feedAll c ({} : Reader C.Z) segs).exc = none ∧
     retained (feedAll c ({} : Reader C.Z) segs) = 0 := by
-  have hout := sendAll_comp_out C c cfg hcfg sends {} (C.D.init cfg.compress) rfl rfl rfl hall
+  have hout := sendAll_comp_out C c cfg hcfg sends {} (C.D.init cfg.compress) rfl rfl hops hall
   have hcore := segmentation_independent_init (Z := C.Z) c segs
   rw [hsegs, hout] at hcore
   simp only [List.nil_append] at hcore
-  have hfeed : (feed c ({} : Reader C.Z) (compWire C cfg (C.D.init cfg.compress) sends)).core =
-      loopK c (fuelFor (compWire C cfg (C.D.init cfg.compress) sends)) {}
-        (compWire C cfg (C.D.init cfg.compress) sends) := by
+  have hfeed : (feed c ({} : Reader C.Z) (compWire C cfg (C.D.init cfg.compress) (accepted false sends))).core =
+      loopK c (fuelFor (compWire C cfg (C.D.init cfg.compress) (accepted false sends))) {}
+        (compWire C cfg (C.D.init cfg.compress) (accepted false sends)) := by
     rw [feed_core]; rfl
-  obtain ⟨k', hidle, hm, he⟩ := loopK_comp_all C c hc cfg sends (C.D.init cfg.compress) {} _
+  obtain ⟨k', hidle, hm, he⟩ := loopK_comp_all C c hc cfg (accepted false sends) (C.D.init cfg.compress) {} _
     ⟨rfl, rfl, rfl, rfl, Or.inr rfl⟩ (C.init_sync _) hall (need_le_fuelFor _ _)
   rw [hfeed, he] at hcore
   have h1 : (feedAll c ({} : Reader C.Z) segs).p.k = k' := congrArg RK.k hcore
@@ -176,6 +198,31 @@ theorem codec_roundtrip_deflate_partial (C : Codec) (cfg : WCfg) (c : Cfg) (hcfg
   unfold retained
   rw [h2, h1, hidle.2.1, hidle.2.2.1]; rfl
 
+/-- After a CLOSE frame has been sent through `send_frame` (and the code latches `_closing`
+there), every later data frame is refused: `accepted` keeps nothing with `opcode & 8 = 0` behind
+the first CLOSE — so on the wire, and at the reader, no data message follows the close message. -/
+theorem no_data_after_close (hl : Gen.C11.closeLatchesInSendFrame = true) :
+    ∀ (sends : List Send) (pre post : List Send) (s : Send),
+    accepted true sends = pre ++ s :: post → s.opcode &&& 8 ≠ 0 := by
+  intro sends
+  induction sends with
+  | nil => intro pre post s h; simp [accepted] at h
+  | cons a r ih =>
+    intro pre post s h
+    simp only [accepted] at h
+    by_cases hno : a.opcode &&& 8 = 0
+    · simp only [hno, and_self, if_true] at h
+      exact ih pre post s h
+    · simp only [hno, and_false, if_false, Bool.true_or] at h
+      cases pre with
+      | nil => simp at h; rw [← h.1]; exact hno
+      | cons p ps => simp at h; exact ih ps post s h.2
+
+/-- …and a CLOSE frame accepted from a non-closing writer switches to that regime. -/
+theorem accepted_close (hl : Gen.C11.closeLatchesInSendFrame = true) (s : Send) (hs : s.opcode = 8)
+    (ss : List Send) : accepted false (s :: ss) = s :: accepted true ss := by
+  simp [accepted, hs, hl]
+
 -- the hypotheses are satisfiable: a text message and a ping on a compressed, masked connection
 example : OkComp Codec.toy ⟨0, true, true, 100⟩ ⟨true, 15, false, 100⟩ ()
     [⟨1, [0x68, 0x69], 0, [1, 2, 3, 4]⟩, ⟨9, [], 0, [5, 6, 7, 8]⟩] := by
@@ -184,6 +231,13 @@ example : OkComp Codec.toy ⟨0, true, true, 100⟩ ⟨true, 15, false, 100⟩ (
   refine ⟨⟨Or.inl rfl, by decide, Or.inl rfl, fun _ _ => by decide⟩, rfl, fun _ => rfl, ?_⟩
   simp only [show ((9:Nat) ≥ 8) by decide, if_true]
   exact ⟨⟨by decide, Or.inr (Or.inl ⟨Or.inl rfl, by decide⟩)⟩, trivial⟩
+
+-- data after CLOSE is refused, control frames still pass (with the latch in `send_frame`)
+example : (feedAll (Z := toyInflater) ⟨0, false, true, 100⟩ {}
+      [(sendAll (D := ⟨Unit, fun _ => (), fun _ m _ => ((), m)⟩) ⟨false, 0, false, 100⟩ {}
+        [⟨1, [0x61], 0, []⟩, ⟨8, [3, 232], 0, []⟩, ⟨1, [0x62], 0, []⟩, ⟨9, [], 0, []⟩]).ws.out]).p.k.msgs
+    = (if Gen.C11.closeLatchesInSendFrame then [.text [0x61], .close 1000 [], .ping []]
+       else [.text [0x61], .close 1000 [], .text [0x62], .ping []]) := by decide +kernel
 
 /-! ## concurrent senders (model `AioModel/C11Conc.lean`) -/
 
